@@ -9,7 +9,9 @@ package main
 import (
 	"bytes"
 	"context"
+	"crypto/x509"
 	"encoding/json"
+	"encoding/pem"
 	"fmt"
 	"io"
 	"log/slog"
@@ -32,6 +34,10 @@ func isCtx() context.Context {
 type isKeyCfg struct {
 	Name string `json:"name"`
 	Pem  int    `json:"pem"` // 0..2 = public key of that signing key; -1 = not a PEM block; -2 = PEM of a non-RSA blob
+	// Form: how the key file spells key Pem (only for Pem >= 0). 0 = one PKIX "PUBLIC KEY" block (what apk keys are);
+	// the others are legal PEM files a user may configure by mistake or on purpose; what RSAVerifyDigest makes of them is
+	// decided by the independent oracle isVerify (first block only, PKIX only, RSA only, block type not consulted).
+	Form int `json:"form,omitempty"`
 }
 
 type isOpt struct {
@@ -254,29 +260,41 @@ func isGenValidArchive(r *Rng) isArchive {
 }
 
 func isGenKeys(r *Rng) []isKeyCfg {
+	ks := isGenKeysPlain(r)
+	// 14%: one configured key file is spelled in another PEM form
+	if len(ks) > 0 && r.Chance(14) {
+		i := r.Intn(len(ks))
+		if ks[i].Pem >= 0 {
+			ks[i].Form = 1 + r.Intn(isNumForms-1)
+		}
+	}
+	return ks
+}
+
+func isGenKeysPlain(r *Rng) []isKeyCfg {
 	switch x := r.Intn(100); {
 	case x < 40:
-		return []isKeyCfg{{isKeyNames[0], 0}}
+		return []isKeyCfg{{isKeyNames[0], 0, 0}}
 	case x < 58:
-		return []isKeyCfg{{isKeyNames[0], 0}, {isKeyNames[1], 1}}
+		return []isKeyCfg{{isKeyNames[0], 0, 0}, {isKeyNames[1], 1, 0}}
 	case x < 66:
-		return []isKeyCfg{{isKeyNames[1], 1}}
+		return []isKeyCfg{{isKeyNames[1], 1, 0}}
 	case x < 72:
 		return []isKeyCfg{}
 	case x < 78:
-		return []isKeyCfg{{isKeyNames[0], 1}} // right name, another key's material
+		return []isKeyCfg{{isKeyNames[0], 1, 0}} // right name, another key's material
 	case x < 83:
-		return []isKeyCfg{{isKeyNames[0], -1}, {isKeyNames[1], 1}}
+		return []isKeyCfg{{isKeyNames[0], -1, 0}, {isKeyNames[1], 1, 0}}
 	case x < 86:
-		return []isKeyCfg{{isKeyNames[0], 0}, {"sub/" + isKeyNames[1], 1}}
+		return []isKeyCfg{{isKeyNames[0], 0, 0}, {"sub/" + isKeyNames[1], 1, 0}}
 	case x < 89:
-		return []isKeyCfg{{isKeyNames[0], -2}}
+		return []isKeyCfg{{isKeyNames[0], -2, 0}}
 	case x < 93:
-		return []isKeyCfg{{"other.rsa.pub", 0}} // right material under another name
+		return []isKeyCfg{{"other.rsa.pub", 0, 0}} // right material under another name
 	case x < 96:
-		return []isKeyCfg{{isKeyNames[0], 0}, {isKeyNames[1], 1}, {isKeyNames[2], 2}}
+		return []isKeyCfg{{isKeyNames[0], 0, 0}, {isKeyNames[1], 1, 0}, {isKeyNames[2], 2, 0}}
 	default:
-		return []isKeyCfg{{isKeyNames[2], 2}, {"k é.rsa.pub", 0}, {".rsa.pub", 1}}
+		return []isKeyCfg{{isKeyNames[2], 2, 0}, {"k é.rsa.pub", 0, 0}, {".rsa.pub", 1, 0}}
 	}
 }
 
@@ -309,12 +327,12 @@ func (indexsigSuite) Gen(r *Rng, i int, tier string) any {
 	if i == 0 {
 		// exhaustive single-bit / truncation sweep of one small, validly signed archive
 		a := isGenValidArchive(r)
-		return isCase{Kind: "sweep", Archive: &a, Stride: 1, Keys: []isKeyCfg{{isKeyNames[0], 0}, {isKeyNames[1], 1}}}
+		return isCase{Kind: "sweep", Archive: &a, Stride: 1, Keys: []isKeyCfg{{isKeyNames[0], 0, 0}, {isKeyNames[1], 1, 0}}}
 	}
 	if i == 1 && tier == "thorough" {
 		a := isGenValidArchive(r)
 		a.Level = 0
-		return isCase{Kind: "sweep", Archive: &a, Stride: 1, Keys: []isKeyCfg{{isKeyNames[0], 0}}}
+		return isCase{Kind: "sweep", Archive: &a, Stride: 1, Keys: []isKeyCfg{{isKeyNames[0], 0, 0}}}
 	}
 	switch x := r.Intn(100); {
 	case x < 6:
@@ -437,9 +455,9 @@ func (indexsigSuite) Gen(r *Rng, i int, tier string) any {
 func isGenKeysMostlyGood(r *Rng) []isKeyCfg {
 	if r.Chance(75) {
 		if r.Bool() {
-			return []isKeyCfg{{isKeyNames[0], 0}}
+			return []isKeyCfg{{isKeyNames[0], 0, 0}}
 		}
-		return []isKeyCfg{{isKeyNames[0], 0}, {isKeyNames[1], 1}}
+		return []isKeyCfg{{isKeyNames[0], 0, 0}, {isKeyNames[1], 1, 0}}
 	}
 	ks := isGenKeys(r)
 	out := ks[:0]
@@ -453,8 +471,56 @@ func isGenKeysMostlyGood(r *Rng) []isKeyCfg {
 
 // ---------------------------------------------------------------- running
 
+// key-file forms (isKeyCfg.Form)
+const (
+	isFormPKIX       = 0 // "PUBLIC KEY", PKIX
+	isFormPKCS1      = 1 // "RSA PUBLIC KEY", PKCS#1 (openssl rsa -RSAPublicKey_out): not PKIX, must not verify anything
+	isFormCertType   = 2 // PKIX bytes in a block typed "CERTIFICATE" (block type is not consulted: verifies like PKIX)
+	isFormJunkFirst  = 3 // an unrelated block first, then the PKIX key: only the first block counts -> never verifies
+	isFormOtherFirst = 4 // another key's PKIX block first, then this key's: verifies as the OTHER key
+	isFormPreamble   = 5 // free text before the block (pem.Decode skips it): verifies like PKIX
+	isFormPrivate    = 6 // the PRIVATE key file ("RSA PRIVATE KEY", PKCS#1): not a public key, must not verify anything
+	isFormHeaders    = 7 // PKIX block with PEM headers: verifies like PKIX
+	isFormTwoPKCS1   = 8 // two PKCS#1 blocks: nothing PKIX anywhere
+	isNumForms       = 9
+)
+
+func isPemForm(k isKeyCfg) []byte {
+	keys := isGetKeys()
+	pub := &keys[k.Pem].priv.PublicKey
+	pkix, err := x509.MarshalPKIXPublicKey(pub)
+	if err != nil {
+		panic(err)
+	}
+	pkcs1 := x509.MarshalPKCS1PublicKey(pub)
+	enc := func(typ string, b []byte, hdr map[string]string) []byte {
+		return pem.EncodeToMemory(&pem.Block{Type: typ, Bytes: b, Headers: hdr})
+	}
+	switch k.Form {
+	case isFormPKCS1:
+		return enc("RSA PUBLIC KEY", pkcs1, nil)
+	case isFormCertType:
+		return enc("CERTIFICATE", pkix, nil)
+	case isFormJunkFirst:
+		return append(enc("APK KEY COMMENT", []byte("rotated 2024"), nil), keys[k.Pem].pem...)
+	case isFormOtherFirst:
+		return append(append([]byte{}, keys[(k.Pem+1)%3].pem...), keys[k.Pem].pem...)
+	case isFormPreamble:
+		return append([]byte("key of the verification repository\nsee https://repo.test/keys\n"), keys[k.Pem].pem...)
+	case isFormPrivate:
+		return enc("RSA PRIVATE KEY", x509.MarshalPKCS1PrivateKey(keys[k.Pem].priv), nil)
+	case isFormHeaders:
+		return enc("PUBLIC KEY", pkix, map[string]string{"Comment": "verif"})
+	case isFormTwoPKCS1:
+		return append(enc("RSA PUBLIC KEY", pkcs1, nil), enc("RSA PUBLIC KEY", x509.MarshalPKCS1PublicKey(&keys[(k.Pem+1)%3].priv.PublicKey), nil)...)
+	}
+	return keys[k.Pem].pem
+}
+
 func isPem(k isKeyCfg) []byte {
 	switch {
+	case k.Pem >= 0 && k.Pem < 3 && k.Form != 0:
+		return isPemForm(k)
 	case k.Pem >= 0 && k.Pem < 3:
 		return isGetKeys()[k.Pem].pem
 	case k.Pem == -2:
@@ -578,6 +644,10 @@ func isB2I(b bool) int {
 func isKeysDesc(keys []isKeyCfg) string {
 	var s []string
 	for _, k := range keys {
+		if k.Form != 0 {
+			s = append(s, fmt.Sprintf("%s<-pem%d/form%d", k.Name, k.Pem, k.Form))
+			continue
+		}
 		s = append(s, fmt.Sprintf("%s<-pem%d", k.Name, k.Pem))
 	}
 	return "[" + strings.Join(s, " ") + "]"
